@@ -289,7 +289,7 @@ class FnView:
                 # a small named constant expression (`const FASTQ_SUFFIXES: [&str; 2] = [".fq", ".fastq"]`, a range,
                 # a product of literals) is its value; big tables stay symbolic (`bytes` facts are read by the rules)
                 if isinstance(cb, dict) and (cf.get("dk") or "").startswith(("Const", "AssocConst")) \
-                        and (c is None or c.get("bytes") is None) and depth < 6:
+                        and (c is None or (c.get("bytes") is None and c.get("chars") is None)) and depth < 6:
                     cache = self.prog.__dict__.setdefault("_const_terms", {})
                     if p not in cache:
                         cache[p] = None
